@@ -384,6 +384,90 @@ func (st *tcState) report(f *tcFunc) {
 	})
 }
 
+// (*ConsulTemplateLoader).Get in configuration/template/loader.go also loads the ROOT template of a
+// processed lookup.  The model lets a processed lookup of a path without an entry fail (and leaves
+// nothing in the template cache): that needs Get to report a failed fetch as an error.  Read off:
+// every return of Get that hands back a nil error returns content computed from the payload that
+// GetComponentConfiguration delivered (locals assigned from it count), never invented content.
+func loaderFailedFetchIsError() (bool, string) {
+	_, f := parseFile("configuration/template/loader.go")
+	fd := findFunc(f, "ConsulTemplateLoader", "Get")
+	if fd == nil || fd.Body == nil {
+		die("tplcache: (*ConsulTemplateLoader).Get not found in configuration/template/loader.go")
+	}
+	fromPayload := map[string]bool{}
+	mentions := func(e ast.Expr) bool {
+		found := false
+		ast.Inspect(e, func(n ast.Node) bool {
+			if id, ok := n.(*ast.Ident); ok && fromPayload[id.Name] {
+				found = true
+			}
+			return !found
+		})
+		return found
+	}
+	fetches := 0
+	for changed := true; changed; {
+		changed = false
+		ast.Inspect(fd.Body, func(n ast.Node) bool {
+			as, ok := n.(*ast.AssignStmt)
+			if !ok {
+				return true
+			}
+			for i, r := range as.Rhs {
+				isFetch := false
+				if c, ok := r.(*ast.CallExpr); ok {
+					if sel, ok := c.Fun.(*ast.SelectorExpr); ok && sel.Sel.Name == "GetComponentConfiguration" {
+						isFetch = true
+					}
+				}
+				var targets []ast.Expr
+				if isFetch && len(as.Lhs) >= 1 {
+					targets = as.Lhs[:1] // (payload, err)
+				} else if mentions(r) {
+					if len(as.Lhs) == len(as.Rhs) {
+						targets = as.Lhs[i : i+1]
+					} else {
+						targets = as.Lhs
+					}
+				}
+				for _, l := range targets {
+					if id, ok := l.(*ast.Ident); ok && id.Name != "_" && !fromPayload[id.Name] {
+						fromPayload[id.Name] = true
+						changed = true
+						if isFetch {
+							fetches++
+						}
+					}
+				}
+			}
+			return true
+		})
+	}
+	if fetches == 0 {
+		return false, "no call of GetComponentConfiguration in (*ConsulTemplateLoader).Get"
+	}
+	okAll, why := true, ""
+	ast.Inspect(fd.Body, func(n ast.Node) bool {
+		if _, isLit := n.(*ast.FuncLit); isLit {
+			return false
+		}
+		ret, ok := n.(*ast.ReturnStmt)
+		if !ok {
+			return true
+		}
+		if len(ret.Results) != 2 {
+			okAll, why = false, "a return of Get without two explicit results"
+			return true
+		}
+		if id, ok := ret.Results[1].(*ast.Ident); ok && id.Name == "nil" && !mentions(ret.Results[0]) {
+			okAll, why = false, "Get returns content that is not the fetched payload together with a nil error"
+		}
+		return true
+	})
+	return okAll, why
+}
+
 func tplCache() string {
 	dir := repo + "/apricot/local"
 	ents, err := os.ReadDir(dir)
@@ -532,5 +616,12 @@ func tplCache() string {
 	fmt.Fprintf(&b, "Definition tplcache_request_data_cached : bool := %s.\n", b2s(cached))
 	b.WriteString("(* every utility function map is built from the variables of the request and reaches Execute *)\n")
 	fmt.Fprintf(&b, "Definition tplcache_funcmap_from_request : bool := %s.\n", b2s(fromReq))
+	loaderOK, why := loaderFailedFetchIsError()
+	b.WriteString("(* configuration/template/loader.go: the template loader reports a failed fetch as an error, it\n   never hands invented content to pongo2 with a nil error")
+	if why != "" {
+		b.WriteString(" - NOT SO: " + why)
+	}
+	b.WriteString(" *)\n")
+	fmt.Fprintf(&b, "Definition tplcache_failed_fetch_is_error : bool := %s.\n", b2s(loaderOK))
 	return b.String()
 }
